@@ -7,4 +7,5 @@ for p in $(jq -r '.checks[].property_id' MANIFEST.json); do
   echo "$out" | grep -E "^mosncheck|SELFTEST|mutants:" | tr '\n' ' '; echo " exit=$code"
   [ $code -ne 0 ] && { rc=1; echo "$out" | grep -A2 FAIL | head -20; }
 done
+python3 /verif/tools/validate_evidence.py || rc=1
 exit $rc
